@@ -62,17 +62,37 @@ pub fn dag_target(data: &[u8], which: Tag) {
 }
 
 pub fn fuzz_cfg(prop: &str) -> GenCfg {
-  let spec = build::spec_of(prop).expect("fuzzable property");
-  let mut c = (spec.cfg)(crate::driver::Tier::Thorough);
+  let t = crate::driver::Tier::Thorough;
+  let mut c = match prop {
+    "C19:diag" | "C08:diag" => crate::props::diag::diag_cfg(t),
+    "C20:guarded" => crate::props::diag::guarded_cfg(t),
+    "C20:after-aborts" | "C06:after-aborts" => crate::props::roles::after_aborts_cfg(t),
+    _ => (build::spec_of(base_prop(prop)).expect("fuzzable property").cfg)(t),
+  };
   c.max_tasks = 8;
   c.max_steps = 10;
   c
 }
 
+/// Campaign kinds: a property id, or `<id>:<label>` for a sub-search with its own decoder and oracle.
+fn base_prop(kind: &str) -> &str { kind.split(':').next().unwrap_or(kind) }
+
 pub fn case_from_bytes(data: &[u8], prop: &str) -> Case {
   let cfg = fuzz_cfg(prop);
   let g = gen::genome_from_bytes(data, &cfg);
-  gen::build_case(&g, &cfg)
+  let mut case = gen::build_case(&g, &cfg);
+  // Injection operators read their choices from the layout words (reversed, so that they are not the words the program
+  // layout consumed first); one case in ten stays un-injected, as in the proptest strategies.
+  let inj: Vec<u16> = g.layout.iter().rev().cloned().collect();
+  let plain = data.len() % 10 == 0;
+  match prop {
+    "C05" if !plain => gen::inject_hidden(&mut case, &inj),
+    "C06" if data.len() % 10 >= 3 => gen::inject_overlap(&mut case, &inj),
+    "C07" if !plain => gen::inject_cycle(&mut case, &inj),
+    "C19:diag" | "C20:guarded" | "C08:diag" => gen::inject_guarded(&mut case, &inj),
+    _ => {}
+  }
+  case
 }
 
 /// Inverse of `genome_from_bytes` for seed corpora (pads task streams to a common length).
@@ -91,15 +111,21 @@ thread_local! { static KNOWN: std::cell::RefCell<Option<(String, Known)>> = std:
 
 /// Runs the oracle of `prop` (one of the build-based properties without injection) on the decoded case.
 pub fn history_check(data: &[u8], prop: &str) -> Result<(), Failure> {
-  let spec = build::spec_of(prop).expect("fuzzable property");
   let case = case_from_bytes(data, prop);
-  let r = crate::driver::guarded(|| build::check(spec, &case, &mut Stats::dummy()));
+  let r = crate::driver::guarded(|| match prop {
+    "C19:diag" => crate::props::diag::check(&case, crate::props::diag::Mode::C19, &mut Stats::dummy()),
+    "C20:guarded" => crate::props::diag::check(&case, crate::props::diag::Mode::C20, &mut Stats::dummy()),
+    "C20:after-aborts" => crate::props::roles::check_after_aborts(&case, &mut Stats::dummy()),
+    "C06:after-aborts" => crate::props::inject::replay_c06_after_aborts(&case),
+    "C08:diag" => build::c08_diag_check(&case, &mut Stats::dummy()),
+    _ => build::check(build::spec_of(base_prop(prop)).expect("fuzzable property"), &case, &mut Stats::dummy()),
+  });
   match r {
     Ok(()) => Ok(()),
     Err(f) => {
       let attributed = KNOWN.with(|k| {
         let mut k = k.borrow_mut();
-        if k.as_ref().map(|x| x.0 != prop).unwrap_or(true) { *k = Some((prop.to_string(), Known::load(prop))); }
+        if k.as_ref().map(|x| x.0 != prop).unwrap_or(true) { *k = Some((prop.to_string(), Known::load(base_prop(prop)))); }
         k.as_ref().unwrap().1.attributed(&f).is_some()
       });
       if attributed { Ok(()) } else { Err(f) }
@@ -146,7 +172,7 @@ pub fn campaign(prop: &str, runs_per_worker: u64, workers: u32, report: &mut cra
   let root = crate::driver::verif_root();
   let fuzz_dir = root.join("harness").join("fuzz");
   let target = if prop == "C10" || prop == "C11" { "dag_ops" } else { "history" };
-  let work = std::env::temp_dir().join(format!("pv-fuzz-{}-{}", prop, std::process::id()));
+  let work = std::env::temp_dir().join(format!("pv-fuzz-{}-{}", prop.replace(':', "-"), std::process::id()));
   let corpus = work.join("corpus");
   let artifacts = work.join("artifacts");
   let _ = std::fs::remove_dir_all(&work);
@@ -210,17 +236,19 @@ pub fn campaign(prop: &str, runs_per_worker: u64, workers: u32, report: &mut cra
         }
       } else if let Err(fl) = history_check(&data, prop) {
         let case = case_from_bytes(&data, prop);
-        report.violation("case", &serde_json::to_value(&case).unwrap(), &Failure::new(format!("(found by libFuzzer) {}", fl.msg)), &crate::lang::pretty_case(&case));
+        let label = prop.split(':').nth(1).unwrap_or("case");
+        report.violation(label, &serde_json::to_value(&case).unwrap(), &Failure::new(format!("(found by libFuzzer) {}", fl.msg)), &crate::lang::pretty_case(&case));
       }
       if report.violations.len() >= 3 { break; }
     }
   }
   report.stats.evaluations += runs;
-  report.extra.insert("fuzz_target".into(), json!(target));
-  report.extra.insert("fuzz_runs".into(), json!(runs));
-  report.extra.insert("fuzz_new_units".into(), json!(new_units));
-  report.extra.insert("fuzz_edge_coverage".into(), json!(cov));
-  report.extra.insert("fuzz_seed_corpus".into(), json!(seeded));
-  report.extra.insert("fuzz_crash_artifacts".into(), json!(crashes));
+  let sfx = if prop.contains(':') { format!("[{}]", prop) } else { String::new() };
+  report.extra.insert(format!("fuzz_target{}", sfx), json!(target));
+  report.extra.insert(format!("fuzz_runs{}", sfx), json!(runs));
+  report.extra.insert(format!("fuzz_new_units{}", sfx), json!(new_units));
+  report.extra.insert(format!("fuzz_edge_coverage{}", sfx), json!(cov));
+  report.extra.insert(format!("fuzz_seed_corpus{}", sfx), json!(seeded));
+  report.extra.insert(format!("fuzz_crash_artifacts{}", sfx), json!(crashes));
   let _ = std::fs::remove_dir_all(&work);
 }
